@@ -28,6 +28,9 @@ type PoolStats struct {
 
 // cost orders cases so that the expensive ones start first (no long tail).
 func cost(c Case) float64 {
+	if c.IsRef {
+		return 1e12
+	}
 	k := 1.0
 	if c.Mode == "timing" {
 		k = 10
@@ -48,6 +51,10 @@ func cost(c Case) float64 {
 	return k
 }
 
+// Equiv, when set, decides whether two outcomes of the same case count as the
+// same verdict (default: same status and symptom).
+var Equiv func(a, b Outcome) bool
+
 // RunAll executes every case in its own worker process, `workers` at a time.
 // A case whose worker did not finish with status ok is re-run ALONE (nothing
 // else running) after the pool has drained; the verdict handed to `done` is
@@ -56,6 +63,12 @@ func cost(c Case) float64 {
 // deadline only stops starting new cases.
 func RunAll(cases []Case, workers int, cap time.Duration, deadline time.Time, done func(i int, o Outcome)) PoolStats {
 	t0 := time.Now()
+	same := func(a, b Outcome) bool {
+		if Equiv != nil {
+			return Equiv(a, b)
+		}
+		return a.Status == b.Status && a.Symptom == b.Symptom
+	}
 	if workers <= 0 {
 		workers = runtime.NumCPU()
 	}
@@ -119,29 +132,27 @@ func RunAll(cases []Case, workers int, cap time.Duration, deadline time.Time, do
 			st.Infra = append(st.Infra, "unconfirmed (deadline before the alone re-run): "+cases[i].Name()+" "+f.Status+" "+f.Symptom)
 			continue
 		}
+		// Two host-thread races of the driver (property C12's subject) can end a run
+		// in a state that says nothing about the kernels' results: the lost wake-up
+		// (every queue empty, host still in Wait()) and the runAsync/runEngine
+		// hand-off (events pending, nobody runs the engine). The worker recognises
+		// both structurally (status "lostwakeup"); such a run is repeated (up to 5
+		// alone attempts) and the first verdict that is not a driver race decides.
+		// A hang of the simulated hardware looks different (event queue empty,
+		// commands outstanding) and is deterministic.
 		o := Exec(cases[i], cap)
 		o.Reruns = 1
 		st.RerunAlone++
 		st.CPUSeconds += o.WallS
-		if f.Status == "lostwakeup" || f.Status == "hang" {
-			// Two host-thread races of the driver (property C12's subject) strike under
-			// load: the lost wake-up (every queue empty, host still in Wait()) and the
-			// runAsync/runEngine hand-off (runEngine has returned from Engine.Run() but
-			// engineRunning is still true when runAsync decides not to start the engine:
-			// a tick stays scheduled, commands outstanding, nothing runs). Both are
-			// scheduling accidents of the host threads and say nothing about the
-			// kernels' results. A hang that is a property of the simulated hardware is
-			// deterministic and repeats alone: up to 3 alone attempts, the first
-			// non-hang verdict decides; 3 hangs are a hang.
-			for k := 0; k < 2 && (o.Status == "lostwakeup" || o.Status == "hang"); k++ {
-				o = Exec(cases[i], cap)
-				o.Reruns++
-				st.RerunAlone++
-			}
-			if o.Status != f.Status {
-				st.LostWakeups = append(st.LostWakeups, fmt.Sprintf("%s: pool %s, alone %s", cases[i].Name(), f.Symptom, o.Status))
-			}
-		} else if o.Status != f.Status || o.Symptom != f.Symptom {
+		for k := 0; k < 4 && o.Status == "lostwakeup"; k++ {
+			o = Exec(cases[i], cap)
+			o.Reruns++
+			st.RerunAlone++
+			st.CPUSeconds += o.WallS
+		}
+		if f.Status == "lostwakeup" {
+			st.LostWakeups = append(st.LostWakeups, fmt.Sprintf("%s: pool %s, alone %s", cases[i].Name(), f.Symptom, o.Status))
+		} else if !same(o, f) {
 			// behaved differently alone: two more alone runs must agree with the first alone run
 			stable := true
 			for k := 0; k < 2; k++ {
@@ -149,7 +160,7 @@ func RunAll(cases []Case, workers int, cap time.Duration, deadline time.Time, do
 				st.RerunAlone++
 				st.CPUSeconds += o2.WallS
 				o.Reruns++
-				if o2.Status != o.Status || o2.Symptom != o.Symptom {
+				if !same(o2, o) {
 					stable = false
 				}
 			}
